@@ -313,6 +313,15 @@ func genC04Plan(rt *rapid.T) fPlan {
 			op := &p.Callers[0][0]
 			op.Kind, op.Cmds, op.Key, op.CancelUs = "receive", nil, "", rapid.SampledFrom([]int{200, 2000, 10000}).Draw(rt, "recvShort0")
 		}
+		// and somebody unsubscribes with a plain Do while other calls are pending
+		ci := rapid.IntRange(0, len(p.Callers)-1).Draw(rt, "unsubCaller")
+		oi := rapid.IntRange(0, len(p.Callers[ci])-1).Draw(rt, "unsubOp")
+		if ci != 0 || oi != 0 {
+			op := &p.Callers[ci][oi]
+			op.Kind, op.Cmds, op.Key, op.CancelUs, op.DeadlineUs = "unsub", nil, "", 0, 0
+		} else {
+			p.Callers[0] = append(p.Callers[0], fOp{GapUs: rapid.IntRange(0, 3000).Draw(rt, "unsubGap"), Kind: "unsub"})
+		}
 		for i := range p.Events {
 			p.Events[i].AtUs += 15000 // let the unsubscribe happen first
 		}
@@ -331,6 +340,10 @@ func TestVerif_C04_NoHangingCalls(t *testing.T) {
 		saveCase("c04", plan)
 		run := fRunPlan(t, plan)
 		if run.Res.Frozen {
+			// second opinion outside the bubble: an artefact of virtual time dissolves in real time, a livelock stays
+			if rr := fRunPlanReal(t, plan); rr.Pending > 0 || rr.Res.Frozen {
+				c.Fail(rt, "C04.no-hang", fmt.Sprintf("the bubble froze (some goroutine spins or sits on a mutex and stops the virtual clock) and, run again in real time, %d calls had not returned after 60 s: %v", rr.Pending, rr.PendingOps), plan)
+			}
 			c.Inconclusive("virtual-clock-freeze")
 			return
 		}
@@ -349,6 +362,12 @@ func TestVerif_C04_NoHangingCalls(t *testing.T) {
 		for _, e := range run.Events {
 			if e.Kind == "fault" && fUIDOf(e.Argv) == "" {
 				failAt = append(failAt, e.At) // an internal fault of the plan fired
+			}
+		}
+		planUnsubscribes := false
+		for _, ops := range plan.Callers {
+			for _, op := range ops {
+				planUnsubscribes = planUnsubscribes || op.Kind == "unsub"
 			}
 		}
 		kindsPending := map[string]bool{}
@@ -377,7 +396,7 @@ func TestVerif_C04_NoHangingCalls(t *testing.T) {
 				}
 				continue
 			}
-			if op.Kind == "receive" && r.Err == nil {
+			if op.Kind == "receive" && r.Err == nil && !planUnsubscribes {
 				c.Fail(rt, "C04.receive-returns-error", fmt.Sprintf("%s returned nil although nobody unsubscribed (the connection failed or the client was closed)", where), plan)
 			}
 			// later calls are served by a fresh connection. An idle connection only learns that it is dead
